@@ -86,6 +86,22 @@ def tag_instances(tier, seed):
                     edges=[edge_node("next", "fold", alias="a", props=[prop_node("val", outputs=["av"], filters=[FTag(">=", "t"), FTag("<=", "u")])])])
     for q in (twice, two):
         for gi in range(3): out.append(make_instance(0, sc, gen_graph(rng, sc, 5), q, {}, cls={"family": "tags", "uses": ["special"]}))
+    # a tag of a CONCRETE type's own property (root OneA: A), other edges walked between the tag and the fold that imports it: the property must be
+    # asked of the A vertex again (the vertex active at that moment is a B / some Node reached through the edges in between)
+    for between in (["toB"], ["toB", "next"], ["peer"], []):
+        mid = [edge_node(e, "plain" if e == "toB" else "optional", alias="m" + str(k), props=[prop_node("id", outputs=["mid" + str(k)])]) for k, e in enumerate(between)]
+        for use in ("filter_in_fold", "count_filter"):
+            if use == "filter_in_fold": fold = edge_node("next", "fold", alias="f", props=[prop_node("val", outputs=["fv"], filters=[FTag(">=", "t")])])
+            else: fold = edge_node("next", "fold", alias="f", props=[prop_node("id")], count={"filters": [FTag(">=", "t")], "outputs": [{"name": "fc"}], "tags": []})
+            q = edge_node("OneA", props=[prop_node("id", outputs=["rid"]), prop_node("a", tags=["t"])], edges=mid + [fold])
+            import foldfam
+            for start in (5, 3):
+                g = foldfam.fold_graph(sc, 5)          # odd vertices are A, even ones B; vertex k has k-1 `next` neighbours and a `peer`
+                for v in g["verts"]:
+                    if v["ty"] == "A": v["props"]["a"] = I(2)
+                g["adj"]["toB"] = [[a, b] for a in (1, 3, 5) for b in (2, 4) if b < a or a == 1]
+                g["entry"]["OneA"] = [start]
+                out.append(make_instance(0, sc, g, q, {}, cls={"family": "tags", "uses": ["concrete_source", use] + between}))
     # several DIFFERENT tags imported into one fold and consumed at different vertices of its body (the order of the import list, and of the
     # property lookups made before entering the fold, must be a function of the query)
     root3 = [prop_node("id", outputs=["rid"]), prop_node("val", tags=["t"]), prop_node("name", tags=["u"]), prop_node("id", alias="id3", tags=["w"])]
